@@ -432,6 +432,8 @@ def int_from_be_bytes(c):
         e = Lin.var(name)
         c.st.sys.add_range(e, 0, (1 << bits) - 1)
         c.it.purefun[name] = set(w[1].t)
+        if c.it.byte_defs and not str(w[0]).startswith("@"):
+            define_over_bytes(c, e, w, bits // 8)
         if c.it.track_content:
             c.st.cells["ghost:rd:%s:%d:%s:%d" % (c.fr.body.key, c.bb, w[0], bits // 8)] = Struct({0: Num(e), 1: Num(w[1])})
         return [(c.st, Num(e))]
@@ -534,3 +536,34 @@ def slice_contains(c):
     for st in states:
         out.append((st, Cond("const", False)))
     return out
+
+
+
+def byte_var(c, w, k):
+    """the variable of byte k of the window w = (content id, offset)"""
+    off_ = w[1] + k
+    nm = "rd8@%s+%r" % (w[0], c.st.sys.reduce(off_))
+    v = Lin.var(nm)
+    c.st.sys.add_range(v, 0, 255)
+    c.it.purefun[nm] = set(off_.t)
+    c.it.contents.setdefault("bytes", {})[nm] = (w[0], off_)
+    c.st.cells["ghost:q:" + nm] = Num(v)
+    return v
+
+
+def define_over_bytes(c, e, w, n):
+    """e is the big-endian number in the n bytes of window w: tie it to the byte variables (up to 8 bytes exactly; a 16-byte
+    number as 2^96 * its first four bytes + an opaque 96-bit rest)"""
+    if n <= 8:
+        acc = Lin.const(0)
+        for k in range(n):
+            acc = acc + byte_var(c, w, k).scale(1 << (8 * (n - 1 - k)))
+        c.st.sys.add_eq(e - acc)
+    elif n == 16:
+        hi = Lin.const(0)
+        for k in range(4):
+            hi = hi + byte_var(c, w, k).scale(1 << (8 * (3 - k)))
+        rest = Lin.var("rd96@%s+%r" % (w[0], c.st.sys.reduce(w[1] + 4)))
+        c.st.sys.add_range(rest, 0, (1 << 96) - 1)
+        c.st.cells["ghost:q:" + next(iter(rest.t))] = Num(rest)
+        c.st.sys.add_eq(e - hi.scale(1 << 96) - rest)
